@@ -42,3 +42,17 @@ mod matcher;
 mod minimizer;
 mod partitions;
 mod store;
+
+/// Read-only access to private modules for external verification harnesses.
+/// Only compiled with the `verif` feature.
+#[cfg(feature = "verif")]
+#[allow(missing_docs, missing_debug_implementations)]
+pub mod verif_hooks {
+    pub use crate::bfs_queues::BfsQueue;
+    pub use crate::compact_tables::{CompactTable, CompactTableBuilder};
+    pub use crate::fast_sets::FastSet;
+    pub use crate::labeled_queues::LabeledQueue;
+    pub use crate::matcher::{naive_re_search, naive_search, SearchResult};
+    pub use crate::minimizer::Minimizer;
+    pub use crate::partitions::{BasePartition, Partition};
+}
